@@ -87,6 +87,8 @@ inline void register_universe(std::vector<TypeOps>& l) {
   // C arrays (top level)
   REGQ(u8[2]) REGQ(i16[2]) REGQ(u32[2]) REGQ(bool[2]) REGQ(float[2]) REGQ(string[2]) REGQ(EI16[2])
   REGT(i64[2]) REGT(char[2]) REGT(double[3]) REGT(u16[70000])
+  // element count and byte count fall into different length-prefix classes (fixint / U8 / U16)
+  REGQ(u32[40]) REGQ(u64[40]) REGQ(i16[200]) REGQ(array<u32, 40>) REGQ(array<i16, 200>) REGQ(S2<u8, u32[40]>)
   // pairs / tuples
   REGQ(pair<u8, i16>) REGQ(pair<i16, u32>) REGQ(pair<u32, i64>) REGQ(pair<i64, bool>) REGQ(pair<bool, char>)
   REGQ(pair<char, float>) REGQ(pair<float, EI16>) REGQ(pair<EI16, string>) REGQ(pair<string, u8>)
